@@ -288,6 +288,19 @@ def _s_stream(draw, tier):
         junk = draw(st.lists(st.sampled_from([1, 2, 7, 9, 0x55, 0xAA]), min_size=1, max_size=min(8, max(1, len(g) - 7))).map(bytes))
         items = [streams.item("decoy", g[:3] + junk + g[3:], decoy="header-junk-rest")] + items
         script = [None, None, None, 0, len(junk)] + script
+    elif draw(st.integers(0, 7)) == 0:
+        # a frame whose length field says k bytes less than it carries, with a checksum that is right for what it
+        # carries, and the payload request answered in pieces (first a bytes, then exactly k): a reader that tops up
+        # short reads must not end up with more than it asked for and deliver the over-long body
+        g = bytes.fromhex(draw(streams.frames("small"))["b"])
+        n = len(g) - 6
+        if n >= 4:
+            k = draw(st.integers(1, min(3, n - 3)))
+            a = draw(st.integers(1, n - k - 1))
+            body = bytearray(g[:-3])
+            body[1], body[2] = (n - k) >> 8, (n - k) & 0xFF
+            items = [streams.item("decoy", bytes(body) + framing.crc_table(bytes(body)).to_bytes(3, "big"), decoy="lying-length-topped-up")] + items
+            script = [None, None, None, a, k] + script
     return {"items": items, "script": script, "qoe": draw(st.sampled_from([0, 1, 2]))}
 
 
@@ -302,7 +315,7 @@ SUBS = [
         strategy=s_stream,
         examples=(300, 6000),
         rule="see property rule",
-        need={"stream-file": 1, "decoy:zero-length-over-data": 1, "socket-dies": 1, "socket-wrapped-by-caller": 1, "chunked-socket-gzip": 1, "chunked-socket-none": 1, "fault-inside-valid-frame": 1, "empty-read-inside-valid-frame": 1, "damaged": 1, "decoy:reserved-bits": 1, "decoy:lying-length": 1, "decoy:nested-ubx": 1, "decoy:jumbo-frame": 1, "decoy:split-behind-false-syncs": 1, "decoy:header-junk-rest": 1, "delivered": 10, "socket-timeout-or-error-mid-stream": 1},
+        need={"stream-file": 1, "decoy:zero-length-over-data": 1, "socket-dies": 1, "socket-wrapped-by-caller": 1, "chunked-socket-gzip": 1, "chunked-socket-none": 1, "fault-inside-valid-frame": 1, "empty-read-inside-valid-frame": 1, "damaged": 1, "decoy:reserved-bits": 1, "decoy:lying-length": 1, "decoy:nested-ubx": 1, "decoy:jumbo-frame": 1, "decoy:split-behind-false-syncs": 1, "decoy:header-junk-rest": 1, "decoy:lying-length-topped-up": 1, "delivered": 10, "socket-timeout-or-error-mid-stream": 1},
         sample=_sample,
     ),
     __import__("pv.fuzz.campaign", fromlist=["make"]).make("C01", ("C01",)),
